@@ -100,6 +100,12 @@ def write_evidence(prop, tier, seed, level, results, wall, extra, nviol):
             }
     except (OSError, ValueError):
         pass
+    if prop == "C04":
+        try:
+            with open(os.path.join(VERIF, "crossval_report.json")) as f:
+                cov["actor_vs_process_crossval_last_recorded"] = json.load(f)
+        except (OSError, ValueError):
+            pass
     ev = {
         "property_id": prop, "tier": tier, "seed": int(seed), "level": level,
         "coverage": cov,
@@ -286,6 +292,10 @@ def main(argv):
         from . import selftest
 
         return selftest.main(argv[1:])
+    if argv[0] == "--crossval":
+        from . import crossval
+
+        return crossval.main(argv[1:])
     if argv[0] == "--mutants":
         from . import mutants
 
